@@ -67,6 +67,8 @@ pub struct HistoryFinding {
     pub sig: String,
     pub what: String,
     pub step: usize,
+    /// size of a numeric deviation relative to the tableau scale (None = structural)
+    pub magnitude: Option<f64>,
 }
 
 /// Checks one run (a maximal sequence of events on the same tableau) of the pivot loop.
@@ -78,8 +80,9 @@ pub fn check_run(events: &[StepEvent], limit: usize) -> (Vec<HistoryFinding>, Ve
     let m = t0.a_matrix().len();
     let n = t0.c_vec().len();
     let cell = std::cell::RefCell::new(Vec::<HistoryFinding>::new());
+    let mag = std::cell::Cell::new(None::<f64>);
     let mut fail = |sig: &str, what: String, step: usize| {
-        cell.borrow_mut().push(HistoryFinding { sig: sig.to_string(), what, step });
+        cell.borrow_mut().push(HistoryFinding { sig: sig.to_string(), what, step, magnitude: mag.take() });
     };
     let check_tableau = |t: &Tableau, step: usize, fail: &mut dyn FnMut(&str, String, usize)| {
         let sc = scale_of(t).max(scale_of(t0));
@@ -95,11 +98,13 @@ pub fn check_run(events: &[StepEvent], limit: usize) -> (Vec<HistoryFinding>, Ve
             for r in 0..m {
                 let want = if r == i { 1.0 } else { 0.0 };
                 if (t.a_matrix()[r][bj] - want).abs() > tol {
+                    mag.set(Some((t.a_matrix()[r][bj] - want).abs() / sc));
                     fail("basic-column-not-unit", format!("column {bj} row {r} is {} after step {step}", t.a_matrix()[r][bj]), step);
                     return;
                 }
             }
             if t.c_vec()[bj].abs() > tol {
+                mag.set(Some(t.c_vec()[bj].abs() / sc));
                 fail("basic-reduced-cost-nonzero", format!("reduced cost of basic column {bj} is {} after step {step}", t.c_vec()[bj]), step);
                 return;
             }
@@ -107,6 +112,7 @@ pub fn check_run(events: &[StepEvent], limit: usize) -> (Vec<HistoryFinding>, Ve
         // b >= 0 (the code works with a 1e-5 tolerance; allow ten times that, scaled)
         for (i, b) in t.b_vec().iter().enumerate() {
             if *b < -1e-4 * sc {
+                mag.set(Some(-*b / sc));
                 fail("basic-solution-negative", format!("b[{i}] = {b} after step {step}"), step);
                 return;
             }
@@ -115,6 +121,7 @@ pub fn check_run(events: &[StepEvent], limit: usize) -> (Vec<HistoryFinding>, Ve
         let x = basic_solution(t);
         let r = residual(t0, &x);
         if r > tol * 10.0 {
+            mag.set(Some(r / sc));
             fail("basic-solution-leaves-initial-system", format!("residual {r} against the initial equalities after step {step}"), step);
             return;
         }
@@ -122,6 +129,7 @@ pub fn check_run(events: &[StepEvent], limit: usize) -> (Vec<HistoryFinding>, Ve
         let f1 = encoded_objective(t, &x);
         let ftol = TOL * 100.0 * (1.0 + f0.abs().max(f1.abs())) * sc;
         if (f0 - f1).abs() > ftol {
+            mag.set(Some((f0 - f1).abs() / ((1.0 + f0.abs().max(f1.abs())) * sc)));
             fail("objective-changed", format!("objective at the basic solution: initial encoding {f0}, current encoding {f1} after step {step}"), step);
             return;
         }
@@ -130,15 +138,17 @@ pub fn check_run(events: &[StepEvent], limit: usize) -> (Vec<HistoryFinding>, Ve
                 continue;
             }
             let e = edge_point(t, j);
-            let mag = e.iter().fold(1.0f64, |a, v| a.max(v.abs()));
+            let mag_e = e.iter().fold(1.0f64, |a, v| a.max(v.abs()));
             let r = residual(t0, &e);
-            if r > tol * 10.0 * mag {
+            if r > tol * 10.0 * mag_e {
+                mag.set(Some(r / (sc * mag_e)));
                 fail("system-not-equivalent", format!("edge point of column {j} has residual {r} against the initial equalities after step {step}"), step);
                 return;
             }
             let f0 = encoded_objective(t0, &e);
             let f1 = encoded_objective(t, &e);
-            if (f0 - f1).abs() > TOL * 100.0 * (1.0 + f0.abs().max(f1.abs())) * sc * mag {
+            if (f0 - f1).abs() > TOL * 100.0 * (1.0 + f0.abs().max(f1.abs())) * sc * mag_e {
+                mag.set(Some((f0 - f1).abs() / ((1.0 + f0.abs().max(f1.abs())) * sc * mag_e)));
                 fail("objective-changed", format!("objective at the edge point of column {j}: initial encoding {f0}, current encoding {f1} after step {step}"), step);
                 return;
             }
@@ -175,6 +185,7 @@ pub fn check_run(events: &[StepEvent], limit: usize) -> (Vec<HistoryFinding>, Ve
                         if a > 1e-4 * sc {
                             let ri = before.b_vec()[i] / a;
                             if ri < r - 1e-4 * (1.0 + r.abs()) * sc {
+                                mag.set(Some((r - ri) / ((1.0 + r.abs()) * sc)));
                                 fail("ratio-test-not-minimal", format!("row {i} has ratio {ri} below the chosen {r} at step {step}"), step);
                                 break;
                             }
@@ -203,6 +214,7 @@ pub fn check_run(events: &[StepEvent], limit: usize) -> (Vec<HistoryFinding>, Ve
                 check_tableau(&ev.after, step, &mut fail);
                 let obj = -ev.after.current_value();
                 if obj > last_obj + TOL * 10.0 * (1.0 + last_obj.abs()) * sc {
+                    mag.set(Some((obj - last_obj) / ((1.0 + last_obj.abs()) * sc)));
                     fail("objective-got-worse", format!("objective went from {last_obj} to {obj} at step {step}"), step);
                 }
                 last_obj = obj;
@@ -270,39 +282,88 @@ pub fn check_terminal(events: &[StepEvent], xs: &crate::props::c13::XStd) -> Res
         }
         _ => {}
     }
+    if let LpAnswer::Unbounded { ray, .. } = &truth {
+        // an improving ray whose slope is at rounding level (0.3333333333333333 vs 1/3)
+        let mut slope = zero();
+        let mut cn = zero();
+        let mut dn = zero();
+        for (c, d) in lp.c.iter().zip(ray) {
+            slope += c * d;
+            cn += c.abs();
+            dn += d.abs();
+        }
+        if slope.abs() <= pow10_neg(9) * &cn * &dn {
+            return Ok("ill-conditioned(improving ray with rounding-level slope)");
+        }
+    }
+    // the float method works with a 1e-5 tolerance: its result may legitimately lie anywhere between the
+    // optimum of the 1e-6-relaxed problem and the exact optimum (a 1e-17 coefficient residue can separate them)
+    let relaxed = solve_lp(&relax(&lp, &pow10_neg(6))).ok();
+    let sc = scale_of(&first.before);
     match (&last.outcome, &truth) {
-        (StepOutcome::Finished, LpAnswer::Optimal { value, .. }) => {
+        (StepOutcome::Finished, _) => {
             let got = -last.after.current_value();
-            let want = to_f64(value);
-            let sc = scale_of(&first.before);
-            if (got - want).abs() <= 1e-4 * (1.0 + want.abs()) * sc {
-                Ok("terminal-optimal-confirmed")
-            } else if (got - want).abs() <= 1e-2 * (1.0 + want.abs()) * sc {
-                Ok("terminal-optimal-within-code-tolerance")
+            let hi = match &truth {
+                LpAnswer::Optimal { value, .. } => Some(to_f64(value)),
+                LpAnswer::Infeasible => None, // nothing bounds it from above
+                LpAnswer::Unbounded { .. } => Some(f64::NEG_INFINITY),
+            };
+            let lo = match &relaxed {
+                Some(LpAnswer::Optimal { value, .. }) => Some(to_f64(value)),
+                Some(LpAnswer::Unbounded { .. }) => Some(f64::NEG_INFINITY),
+                Some(LpAnswer::Infeasible) => None,
+                None => return Ok("oracle-undecided"),
+            };
+            if matches!(truth, LpAnswer::Infeasible) && !phase1 {
+                // phase 2 only starts after phase 1 accepted a residual below the code's 1e-5 tolerance
+                return Ok("phase2-on-tolerance-feasible-problem");
+            }
+            match (lo, hi) {
+                (Some(lo), Some(hi)) => {
+                    let tol = 1e-4 * (1.0 + got.abs()) * sc;
+                    if (got - hi).abs() <= tol {
+                        Ok("terminal-optimal-confirmed")
+                    } else if got >= lo - tol && got <= hi + tol {
+                        Ok("terminal-optimal-within-tolerance-band")
+                    } else if hi == f64::NEG_INFINITY {
+                        Err(HistoryFinding {
+                            sig: "finished-on-unbounded".into(),
+                            what: "the method reported an optimum but the problem is unbounded".into(),
+                            step,
+                            magnitude: None,
+                        })
+                    } else {
+                        Err(HistoryFinding {
+                            sig: "finished-not-optimal".into(),
+                            what: format!("the method stopped at objective {got} but the certified optimum of the problem it was solving is {hi} (1e-6-relaxed: {lo})"),
+                            step,
+                            magnitude: Some(((got - hi).abs().min((got - lo).abs())) / ((1.0 + got.abs()) * sc)),
+                        })
+                    }
+                }
+                _ => Err(HistoryFinding {
+                    sig: "finished-on-infeasible".into(),
+                    what: "the method reported an optimum but the problem is infeasible even after a 1e-6 relaxation".into(),
+                    step,
+                    magnitude: None,
+                }),
+            }
+        }
+        (StepOutcome::Unbounded, LpAnswer::Unbounded { .. }) => Ok("terminal-unbounded-confirmed"),
+        (StepOutcome::Unbounded, other) => {
+            if matches!(relaxed, Some(LpAnswer::Unbounded { .. })) {
+                Ok("terminal-unbounded-within-tolerance-band")
+            } else if matches!(other, LpAnswer::Infeasible) && !phase1 {
+                Ok("phase2-on-tolerance-feasible-problem")
             } else {
                 Err(HistoryFinding {
-                    sig: "finished-not-optimal".into(),
-                    what: format!("the method stopped at objective {got} but the certified optimum of the problem it was solving is {want}"),
+                    sig: format!("unbounded-on-{}", other.kind()),
+                    what: format!("the method reported unbounded but the problem is {}", other.kind()),
                     step,
+                    magnitude: None,
                 })
             }
         }
-        (StepOutcome::Finished, LpAnswer::Infeasible) if !phase1 => {
-            // phase 2 only starts after phase 1 accepted a residual below the code's 1e-5 tolerance
-            Ok("phase2-on-tolerance-feasible-problem")
-        }
-        (StepOutcome::Finished, other) => Err(HistoryFinding {
-            sig: format!("finished-on-{}", other.kind()),
-            what: format!("the method reported an optimum but the problem is {}", other.kind()),
-            step,
-        }),
-        (StepOutcome::Unbounded, LpAnswer::Unbounded { .. }) => Ok("terminal-unbounded-confirmed"),
-        (StepOutcome::Unbounded, LpAnswer::Infeasible) if !phase1 => Ok("phase2-on-tolerance-feasible-problem"),
-        (StepOutcome::Unbounded, other) => Err(HistoryFinding {
-            sig: format!("unbounded-on-{}", other.kind()),
-            what: format!("the method reported unbounded but the problem is {}", other.kind()),
-            step,
-        }),
         _ => Ok("no-terminal-event"),
     }
 }
@@ -470,7 +531,7 @@ impl Driver for C14 {
                 total_pivots += run.iter().filter(|e| matches!(e.outcome, StepOutcome::Pivot { .. })).count();
                 out.tag_n("pivots-checked", run.iter().filter(|e| matches!(e.outcome, StepOutcome::Pivot { .. })).count() as u64);
                 let term = if findings.is_empty() { check_terminal(run, &xs) } else { Ok("skipped") };
-                let all: Vec<HistoryFinding> = findings.into_iter().chain(term.as_ref().err().map(|f| HistoryFinding { sig: f.sig.clone(), what: f.what.clone(), step: f.step })).collect();
+                let all: Vec<HistoryFinding> = findings.into_iter().chain(term.as_ref().err().map(|f| HistoryFinding { sig: f.sig.clone(), what: f.what.clone(), step: f.step, magnitude: f.magnitude })).collect();
                 if let Ok(t) = term {
                     out.tag(t);
                 }
@@ -478,6 +539,8 @@ impl Driver for C14 {
                     bad = true;
                     let sig = if range == "wide" {
                         "tableau-simplex-unreliable-on-wide-coefficient-range(spread>=50)".to_string()
+                    } else if f.magnitude.is_some_and(|m| m <= 2e-3) {
+                        "tolerance-level-invariant-drift(<=2e-3 of the tableau scale)".to_string()
                     } else {
                         format!("{phase}:{}", f.sig)
                     };
@@ -522,5 +585,43 @@ impl Driver for C14 {
             "'all pivot sequences' = those the code produces on these inputs".into(),
             "floating-point tolerances: 1e-6 relative (scaled by the largest tableau entry) for equalities, 1e-4 scaled for b >= 0 and the ratio test because the code itself compares with 1e-5".into(),
         ]
+    }
+}
+
+pub fn debug_case(seed: u64, unit: usize, case: usize, thorough: bool) {
+    let ctx = Ctx { tier: if thorough { Tier::Thorough } else { Tier::Quick }, seed };
+    let mut rng = unit_rng(&ctx, "C14", unit);
+    for c in 0..25 {
+        let mut spec = gen_lm(
+            &mut rng,
+            &LpGenOpts { continuous_only: true, allow_satisfy: false, max_vars: 6, max_rows: 6, moderate_coeffs: unit % 8 == 1, ..Default::default() },
+        );
+        if rng.gen_bool(0.3) {
+            for r in spec.rows.iter_mut() {
+                if rng.gen_bool(0.6) {
+                    r.b = 0.0;
+                }
+            }
+        }
+        let sbs = rng.gen_bool(0.5);
+        if c != case {
+            continue;
+        }
+        let lm = spec.to_rooc();
+        println!("{lm}");
+        let (events, outcome, xs) = run_history(&lm, sbs).unwrap();
+        println!("outcome {outcome}; {} events", events.len());
+        println!("standard form vars {:?}", xs.vars);
+        for (a, b) in &xs.rows {
+            println!("  {} = {}", show_vec(a), show(b));
+        }
+        for (ri, run) in split_runs(events).iter().enumerate() {
+            let phase1 = !run[0].avoided.is_empty();
+            let lp = run_lp(&xs, phase1);
+            println!("run {ri} phase1={phase1} oracle: {:?}", solve_lp(&lp).map(|a| match a { LpAnswer::Optimal{value, x} => format!("optimal {} at {}", show(&value), show_vec(&x)), o => o.kind().to_string() }));
+            for (k, ev) in run.iter().enumerate() {
+                println!("  step {k} bland={} outcome {:?} obj {} b {:?} basis {:?}", ev.use_bland, ev.outcome, -ev.after.current_value(), ev.after.b_vec(), ev.after.in_basis());
+            }
+        }
     }
 }
